@@ -264,6 +264,18 @@ func typeMinPkg(s *Spec, t *Type, cur int) int {
 	if t == nil {
 		return cur
 	}
+	if t.K == "ifacelit" || t.K == "named" && s.Decls[t.Decl].Form == "iface" {
+		// building a value of an interface type needs its implementing type
+		if c := (&Renderer{S: s}).Implementer(t); c != nil {
+			ct := c
+			if ct.K == "ptr" {
+				ct = ct.Elem
+			}
+			if ct.K == "named" && s.Decls[ct.Decl].Pkg < cur {
+				cur = s.Decls[ct.Decl].Pkg
+			}
+		}
+	}
 	if t.K == "named" {
 		d := &s.Decls[t.Decl]
 		if d.Pkg < cur {
